@@ -361,7 +361,10 @@ def loop_check(pid, argv, *, monitor, n_quick, n_thorough, sweep_quick, sweep_th
     rep.cov['distinct_nontrivial'] = len(distinct)
     if extra_stage is not None:
         before = sum(1 for v in rep.violations if v[2])
-        extra_stage(rep, broken, tier)
+        try:
+            extra_stage(rep, broken, tier)
+        except Exception as e:
+            broken.append(f'extra stage could not process the real code\'s output: {e!r}')
         found_input = found_input or sum(1 for v in rep.violations if v[2]) > before
     broken.extend(g for g in C.GEN_ERRORS if g not in broken)     # feedback generators that could not read the output
     if broken and not found_input:
